@@ -1,6 +1,7 @@
 package walletsim
 
 import (
+	"os"
 	"fmt"
 	"sort"
 	"time"
@@ -14,6 +15,7 @@ import (
 	"github.com/btcsuite/btcwallet/walletdb"
 
 	"verifsim/core"
+	"verifsim/faultdb"
 	"verifsim/simchain"
 	"verifsim/simrt"
 )
@@ -23,7 +25,7 @@ type sim struct{}
 func init() { core.Register(sim{}) }
 
 func (sim) Name() string        { return "walletsim" }
-func (sim) Props() []string     { return []string{"C09", "C15", "C20", "C06", "C16", "C04", "C01", "C03", "C05", "C08"} }
+func (sim) Props() []string     { return []string{"C09", "C15", "C20", "C06", "C16", "C04", "C01", "C03", "C05", "C08", "C13"} }
 func (sim) Level(string) string { return "exploration" }
 func (sim) Rule(prop string) string {
 	switch prop {
@@ -39,6 +41,8 @@ func (sim) Rule(prop string) string {
 		return "C20: a case is (wallet history of receipts, sends incl. chained unconfirmed ones, built-then-published transactions, leases, blocks, restarts; at every broadcast — initial and each re-broadcast after a restart — a backend answer class: accepted, already in mempool, already confirmed, rejected (fee / generic / conflict), transport error, subscription failure)."
 	case "C03", "C05", "C08":
 		return prop + " (wallet level): a case is (addresses on the default scopes, optional receipts, then a mix of account-import previews (ImportAccountDryRun: seven key-version x address-type variants, 1-4 foreign keys), real imports (often into the scope just previewed with another key or format), NextAccount, addresses of own and imported accounts, dry-run sends, renames, wallet lock / account operations while locked / unlock, restarts, blocks, restart observations, private-key checks)."
+	case "C13":
+		return "C13 (wallet level): a case is (the C06 or the C15 workload); after every operation, with the wallet idle, Wallet.GetTransactions over nine height ranges in both directions is compared with the known set obtained by direct lookup of every transaction the node ever saw or the wallet authored."
 	case "C01":
 		return "C01 (wallet level): a case is (the C06 or the C15 workload — receipts on four address types and two accounts, coinbases near maturity, wallet-authored sends, locks, leases, clock, blocks, reorgs, invalidated and reconsidered blocks, delivery lag, restarts); after every operation, with the wallet idle, CalculateBalance / ListUnspent / CalculateAccountBalances are compared with the statement evaluated over the wallet's own known transaction set."
 	case "C15":
@@ -81,10 +85,12 @@ func (sim) Explain(prop string, st map[string]int64) string {
 	case "C03", "C05", "C08":
 		probes = []string{"probe.account-import-preview", "probe.preview-while-locked", "probe.account-imported", "probe.import-after-preview", "probe.imported-address-checked",
 			"probe.restart-observations", "probe.next-address-compared", "probe.private-key-checked", "probe.private-access-while-locked"}
+	case "C13":
+		probes = []string{"probe.c13w-checked", "probe.c13w-with-unconfirmed", "probe.reorg-with-wallet-tx"}
 	case "C01":
 		probes = []string{"probe.c01w-checked", "probe.c01w-with-leases", "probe.c01w-unconfirmed-credit", "probe.c01w-immature-coinbase", "probe.c01w-account-balances-checked"}
 	case "C15":
-		probes = []string{"probe.repeated-disconnect", "probe.reorg-back-to-known-blocks", "probe.chain-shortened", "probe.ops-during-initial-rescan", "probe.reorg-depth>1", "probe.reorg-with-wallet-tx", "probe.restart-tip-not-on-chain", "probe.stale-disconnect", "probe.reorg-equal-height", "probe.sync-after-backend-failure", "probe.node-moved-while-stopped"}
+		probes = []string{"probe.repeated-disconnect", "probe.reorg-back-to-known-blocks", "probe.chain-shortened", "probe.ops-during-initial-rescan", "probe.reorg-depth>1", "probe.reorg-with-wallet-tx", "probe.restart-tip-not-on-chain", "probe.stale-disconnect", "probe.reorg-equal-height", "probe.sync-after-backend-failure", "probe.node-moved-while-stopped", "fault.crash-at-commit", "probe.crash-lost-later-commits"}
 	}
 	s := "probes: "
 	for _, k := range probes {
@@ -123,7 +129,7 @@ func (sim) Generate(prop, tier string, seed uint64) *core.Plan {
 		genC16(r, p)
 	case "C04":
 		genC04w(r, p)
-	case "C01":
+	case "C01", "C13":
 		genC01w(r, p)
 	case "C03", "C05", "C08":
 		genAcctW(r, p)
@@ -202,7 +208,21 @@ func genC15(r *core.Rand, p *core.Plan) {
 		p.Cfg["btcd_rescan"] = 1 // rescans report transactions only; the wallet catches up block hashes itself
 	}
 	for i := 0; i < n; i++ {
-		switch r.Weighted([]int{20, 25, 18, 12, 14, 5, 4, 4, 6, 4, 3, 8}) {
+		switch r.Weighted([]int{20, 25, 18, 12, 14, 5, 4, 4, 6, 4, 3, 8, 7}) {
+		case 12:
+			// power loss while the wallet is processing what the node did:
+			// the durable state is the database as of the k-th commit
+			switch r.Intn(3) {
+			case 0:
+				p.Ops = append(p.Ops, core.Op{K: "mine", A: []int64{int64(r.Range(1, 4)), int64(r.Range(40, 100)), int64(r.Range(-1, 3)), 600, int64(r.Uint64() >> 1)}})
+			case 1:
+				d := r.Range(1, maxDepth)
+				p.Ops = append(p.Ops, core.Op{K: "reorg", A: []int64{int64(d), int64(d + r.Range(0, 2)), int64(r.Range(0, 100)), int64(r.Uint64() >> 1)}})
+			default:
+				p.Ops = append(p.Ops, core.Op{K: "fund", A: []int64{int64(r.Intn(6)), int64(r.Range(1, 50)) * 1e6}})
+				p.Ops = append(p.Ops, core.Op{K: "mine", A: []int64{int64(r.Range(1, 2)), 100, -1, 600, int64(r.Uint64() >> 1)}})
+			}
+			p.Ops = append(p.Ops, core.Op{K: "crashsync", A: []int64{int64(r.Range(1, 6))}})
 		case 11:
 			if r.Chance(1, 2) {
 				// invalidateblock ... reconsiderblock: the chain gets shorter,
@@ -405,6 +425,9 @@ func (rs *runState) run() {
 		rs.exec(0, i, op)
 		if x.prop == "C01" {
 			x.checkC01w(fmt.Sprintf("after op %d %s", i, op.K))
+		}
+		if x.prop == "C13" {
+			x.checkC13w(fmt.Sprintf("after op %d %s", i, op.K))
 		}
 	}
 	if !x.violated {
@@ -892,6 +915,8 @@ func (rs *runState) exec(task, step int, op core.Op) {
 				env.Eff()
 			}
 		}
+	case "crashsync":
+		rs.crashsync(task, step, op)
 	case "fundchild":
 		rs.fundchild(step, op)
 	case "sendself":
@@ -1162,4 +1187,59 @@ func (rs *runState) fundpsbt(task, step int, op core.Op) {
 // statement, not reported.
 func (x *world) rescanRunning() bool {
 	return x.running && x.client != nil && x.client.RescanActive()
+}
+
+// crashsync: everything the node has announced is delivered and processed,
+// but the machine loses power at the k-th database commit from now: the
+// wallet is then restarted on the database as it was at that commit (bbolt
+// commits are atomic and durable; nothing later survives). The running wallet
+// is shut down in the ordinary way first only because goroutines cannot be
+// killed inside the simulation; its later commits are discarded with the file.
+func (rs *runState) crashsync(task, step int, op core.Op) {
+	x := rs.x
+	if !x.running || x.rescanRunning() {
+		return
+	}
+	k := int(op.Arg(0))
+	if k < 1 {
+		k = 1
+	}
+	var img []byte
+	n := 0
+	x.db.AfterCommit = func(d *faultdb.DB) {
+		n++
+		if n == k && img == nil {
+			if b, err := d.Image(); err == nil {
+				img = b
+			}
+		}
+	}
+	x.client.Deliver(0)
+	x.quiesce(func() bool {
+		if x.client.RescanActive() {
+			x.client.StepRescan(0)
+			return false
+		}
+		if x.client.Pending() > 0 {
+			x.client.Deliver(0)
+			return false
+		}
+		return true
+	}, 30*time.Second)
+	x.db.AfterCommit = nil
+	if img == nil {
+		x.env.Count("probe.crash-point-not-reached")
+		return
+	}
+	x.stop()
+	if err := os.WriteFile(x.dbPath, img, 0o600); err != nil {
+		x.env.Infra("write crash image: %v", err)
+		return
+	}
+	x.env.Count("fault.crash-at-commit")
+	if n > k {
+		x.env.Count("probe.crash-lost-later-commits")
+	}
+	x.env.Logf("%d crashsync: restarted on the database as of commit %d of %d", step, k, n)
+	rs.exec(task, step, core.Op{K: "start"})
 }
